@@ -360,6 +360,57 @@ func attacksFor(prop string, t *harness.TxSpec, w *harness.World, thorough bool)
 	return addressAttacks(t, w, thorough)
 }
 
+// kindFamily groups the transaction kinds that act on the same records.
+func kindFamily(kind string) string {
+	switch {
+	case strings.HasPrefix(kind, "BID_"):
+		return "bid"
+	case strings.HasPrefix(kind, "DOMAIN_"):
+		return "ons"
+	case strings.HasPrefix(kind, "PROPOSAL_") || kind == "EXPIRE_VOTES":
+		return "gov"
+	case strings.HasPrefix(kind, "ETH_") || strings.HasPrefix(kind, "ERC20_"):
+		return "eth"
+	case kind == "STAKE" || kind == "UNSTAKE" || kind == "WITHDRAW" || strings.HasPrefix(kind, "ALLEGATION") || kind == "RELEASE":
+		return "stake"
+	case strings.Contains(kind, "NETWORK_DELEG") || strings.HasPrefix(kind, "REWARDS_") || strings.Contains(kind, "NETWORK_UNDELEG"):
+		return "deleg"
+	}
+	return kind
+}
+
+// foreignAttacks: the "wrong-state" family. In the state in which this scenario's target is valid, the
+// valid target of every OTHER scenario of the same family is sent instead (all scenarios of a family act on
+// the same accounts, names, proposal / conversation / tracker ids): an operation whose preconditions do not
+// hold here. The unchanged tree refuses most of them; whatever a tree admits goes through the ledger oracle
+// like everything else. (Added after a seeded change - an owner decision accepted while the owner's own
+// counter offer is the active one - escaped the amount family: no field value is hostile there, the STATE is.)
+func foreignAttacks(scn string) []attack {
+	me := catalogue.Get(scn)
+	if me == nil {
+		return nil
+	}
+	var out []attack
+	seen := map[string]bool{}
+	for _, sc := range catalogue.All() {
+		if sc.ID() == scn || kindFamily(sc.Kind) != kindFamily(me.Kind) {
+			continue
+		}
+		h, err := buildHist(sc.ID(), 0)
+		if err != nil || h.Target >= len(h.Blocks) || len(h.Blocks[h.Target].Txs) == 0 {
+			continue
+		}
+		t := h.Blocks[h.Target].Txs[0].Fresh("frn")
+		k := string(t.Bytes())
+		if seen[k] {
+			continue
+		}
+		seen[k] = true
+		out = append(out, attack{name: "foreign:" + sc.ID() + "=valid-in-another-state", field: "foreign:" + sc.Kind, class: "valid-in-another-state", spec: t})
+	}
+	return out
+}
+
 func signersOf(wire []byte) []string {
 	var st action.SignedTx
 	if json.Unmarshal(wire, &st) != nil {
@@ -464,7 +515,7 @@ func ledExec(j ledJob) ledRes {
 	path := strings.TrimSuffix(j.Path, "+t")
 	var atk *attack
 	if j.Op >= 0 {
-		as := attacksFor(j.Prop, h.Blocks[h.Target].Txs[0], h.W, thorough)
+		as := append(attacksFor(j.Prop, h.Blocks[h.Target].Txs[0], h.W, thorough), foreignAttacks(j.Scn)...)
 		if j.Op >= len(as) {
 			return ledRes{Err: "attack index out of range"}
 		}
@@ -668,7 +719,7 @@ func c0203(prop string, args []string) int {
 		scn++
 		kinds[sc.Kind] = true
 		jobList = append(jobList, ledJob{Prop: prop, Scn: sc.ID(), Op: -1, Name: "benign", Path: "benign"})
-		as := attacksFor(prop, h.Blocks[h.Target].Txs[0], h.W, thorough)
+		as := append(attacksFor(prop, h.Blocks[h.Target].Txs[0], h.W, thorough), foreignAttacks(sc.ID())...)
 		for op, a := range as {
 			for _, p := range []string{"check", "deliver"} {
 				if thorough {
